@@ -160,6 +160,11 @@ def const_list(py, mod: str, name: str) -> List[str]:
             ks = [py.eval_const(k, py.module_env(mod)) for k in st.value.keys if k is not None]
             if ks and all(isinstance(k, str) for k in ks):
                 return ks
+        # dict(module=ExternalModule, ...): the keyword names are the keys
+        v2 = getattr(st, "value", None)
+        if isinstance(tgt, ast.Name) and tgt.id == name and isinstance(v2, ast.Call) and call_name(v2) == "dict" and not v2.args \
+                and v2.keywords and all(k.arg for k in v2.keywords):
+            return [k.arg for k in v2.keywords]
     raise AnalysisError(f"{mod}.{name} not found as a constant table")
 
 
@@ -375,6 +380,31 @@ def r3_local_precedence(ctx, rep):
             rep.ob("find_used_modules: local modules searched first", False,
                    "candidates are collected into a mapping/sequence where a later entry replaces an earlier "
                    "one: an external module shadows a local module of the same name", py.nloc(n))
+    # the enumeration may be delegated to a helper that goes through its collection arguments in the order given and returns
+    # the first match: `_first_named(name, modules, external_modules)`
+    for c in py.walk_calls(fn):
+        args = [ast.unparse(a) for a in c.args]
+        if local_p in args and ext_p in args and isinstance(c.func, ast.Name) and py.has_func(f"fortran_project.{c.func.id}"):
+            h = py.func(f"fortran_project.{c.func.id}")
+            va = h.args.vararg.arg if h.args.vararg else None
+            in_order = False
+            for lp in ast.walk(h):
+                if not isinstance(lp, ast.For):
+                    continue
+                it = lp.iter
+                chained = isinstance(it, ast.Call) and call_name(it).split(".")[-1] == "chain" and any(
+                    isinstance(a, ast.Starred) and ast.unparse(a.value) == va for a in it.args)
+                nested = isinstance(it, ast.Name) and it.id == va and any(isinstance(x, ast.For) for x in ast.walk(lp) if x is not lp)
+                first_wins = any(isinstance(x, ast.Return) and x.value is not None for x in ast.walk(lp))
+                if (chained or nested) and first_wins:
+                    in_order = True
+            if va is None or not in_order:
+                continue
+            found = True
+            ok = args.index(local_p) < args.index(ext_p)
+            rep.ob("find_used_modules: local modules searched first", ok,
+                   f"{c.func.id}() returns the first match from its collections in the order given: local, then external" if ok else
+                   "external modules are handed to the search before the local ones", py.nloc(c))
     if not found:
         raise AnalysisError(f"find_used_modules: no construct enumerates `{local_p}` together with `{ext_p}`")
     # Project.find: all local collections before all external ones
@@ -497,15 +527,22 @@ def r6_fresh_objects_and_node_urls(ctx, rep):
     ok = bool(apps) and not astq.conditions_of(apps[0], par, stop=d2o)
     rep.ob("every external object is registered in its project list", ok, "", py.nloc(d2o))
     # graph nodes: URLs of external entities (remote or local path) are used as they are
-    bn = py.func("BaseNode.__init__")
+    bn = py.ifunc("BaseNode.__init__")
     ev = astq.trace(bn)
-    url_asg = [e for e in ev if e.kind == "assign" and e.target and "URL" in e.target and "attribs" in e.target]
-    if len(url_asg) < 2:
-        raise AnalysisError("BaseNode.__init__: the raw / re-based assignments of attribs['URL'] were not found")
-    raw = [e for e in url_asg if e.text(e.value) == "self.url"]
-    based = [e for e in url_asg if e not in raw]
+    url_asg = [e for e in ev if e.kind == "assign" and e.target and "URL" in e.target and "attribs" in e.target and e.value is not None]
+    if not url_asg:
+        raise AnalysisError("BaseNode.__init__: no assignment of attribs['URL'] found")
+    # every value the URL can take, with the conditions under which it takes it (conditional expressions and hoisted locals
+    # are resolved): the raw form `self.url` vs. a re-based form `<prefix> + self.url`
+    cases = []
+    for e in url_asg:
+        for val, cs in astq.alternatives(e.value, bn):
+            conds = e.cond_texts_x(bn) + [(ast.unparse(t) if pol else f"not ({ast.unparse(t)})") for t, pol in cs]
+            cases.append((ast.unparse(val) == "self.url", conds, e))
+    raw = [c for c in cases if c[0]]
+    based = [c for c in cases if not c[0]]
     if not raw or not based:
-        raise AnalysisError("BaseNode.__init__: expected one raw and one re-based URL assignment")
+        raise AnalysisError("BaseNode.__init__: expected a raw and a re-based form of the node URL")
 
     def says_external(conds: List[str], positive: bool) -> bool:
         for c in conds:
@@ -513,11 +550,11 @@ def r6_fresh_objects_and_node_urls(ctx, rep):
             if ("external_url" in c or "External" in c) and (neg != positive):
                 return True
         return False
-    ok = says_external(raw[0].cond_texts(), True) or says_external(based[0].cond_texts(), False)
+    ok = all(says_external(c[1], True) for c in raw) or all(says_external(c[1], False) for c in based)
     rep.ob("graph node URL of an external entity is not re-based", ok,
            "external entities (hasattr external_url) take the URL as recorded" if ok else
-           f"the raw-URL branch is selected by {raw[0].cond_texts()[-1:]}: an external project given by a local path has a "
-           f"file-system URL, which then gets the '../' prefix of local pages and points nowhere", py.nloc(raw[0].node))
+           f"the raw-URL form is selected by {raw[0][1][-1:]}: an external project given by a local path has a "
+           f"file-system URL, which then gets the '../' prefix of local pages and points nowhere", py.nloc(raw[0][2].node))
 
 
 STR_CALLS = {"str", "urljoin", "format", "join", "as_posix", "fspath"}
